@@ -34,7 +34,7 @@ PROPS = {
     "C10": {"lean_target": ["Props.C10"], "gens": ["gen-bazi"], "searches": ["search-C10"],
             "trusted_base": [ASTRO_TB, "time.Now() is a parameter (endYear) of the model"],
             "open_obligations": ["completeness fails when a Jie instant lies inside the queried two-hour slot (known finding); completeness elsewhere is checked by search-C10, not proved"]},
-    "C11": {"lean_target": ["Props.C11"], "gens": ["gen-alm", "gen-ec", "gen-terms"], "searches": ["search-C11"],
+    "C11": {"lean_target": ["Props.C11", "Props.C18Reads"], "gens": ["gen-alm", "gen-ec", "gen-terms"], "searches": ["search-C11"],
             "trusted_base": [ASTRO_TB, STD_TB]},
     "C12": {"lean_target": ["Props.C12"], "gens": ["gen-ec"], "searches": ["search-C12"],
             "trusted_base": [ASTRO_TB]},
@@ -48,7 +48,7 @@ PROPS = {
             "trusted_base": [ASTRO_TB, STD_TB]},
     "C17": {"lean_target": ["Props.C17"], "gens": ["gen-alm", "gen-box"], "searches": ["search-C17"],
             "trusted_base": [ASTRO_TB]},
-    "C18": {"lean_target": ["Props.C18"], "gens": ["gen-alm", "gen-ec"], "searches": ["search-C18"],
+    "C18": {"lean_target": ["Props.C18", "Props.C18Reads"], "gens": ["gen-alm", "gen-ec"], "searches": ["search-C18"],
             "trusted_base": [ASTRO_TB, STD_TB]},
     "C19": {"lean_target": ["Props.C19"], "gens": ["gen-fmt", "gen-alm"], "searches": ["search-C19"],
             "trusted_base": [STD_TB]},
